@@ -1126,6 +1126,9 @@ def _list_decorators() -> Dict[str, Callable[[_FN], _FN]]:
                 if step == 1:
                     if value is self:
                         return
+                    # as list does, take the items before anything is
+                    # removed; a non-iterable raises TypeError here
+                    value = list(value)
                     for i in range(start, stop, step):
                         if len(self) > start:
                             del self[start]
@@ -1133,6 +1136,9 @@ def _list_decorators() -> Dict[str, Callable[[_FN], _FN]]:
                     for i, item in enumerate(value):
                         self.insert(i + start, item)
                 else:
+                    # any iterable is accepted, and a copy is needed if
+                    # value is this collection
+                    value = list(value)
                     rng = list(range(start, stop, step))
                     if len(value) != len(rng):
                         raise ValueError(
